@@ -44,7 +44,9 @@ S_REAL = [0.0, 1.0, -1.0, 2.0, 0.5, -3.0]
 S_CPLX = [1j, 1 + 1j, -0.5j]
 WA = [1.0, 2.0, 0.5, 4.0, 0.25, 3.0, 1.5, 0.75]        # per-entry weights (tensor spaces)
 PWA = [2.0, 0.5, 1.5, 1.0, 4.0]                         # per-component weights (product spaces)
-WIDE = [(-1.0, 1.5), (0.5, 3.5), (-2.0, -1.25)]         # uneven box, sides 2.5, 3, 0.75
+# uneven box, sides 1.75, 3.25, 0.75: no cell side and no cell volume is 1 for any enumerated
+# shape / boundary choice (the unit-cell regime is enumerated on purpose by 'cell1'/'cellinv')
+WIDE = [(-1.0, 0.75), (0.5, 3.75), (-2.0, -1.25)]
 INV_SIDES = [0.5, 2.0, 1.0]                             # cell sides with product exactly 1
 
 
@@ -658,8 +660,13 @@ def check_node(node, ctx, describe, scope='t'):
         if i == j and dxy != 0.0:
             ctx.report('dist_x_x_nonzero', lambda: D(x=lab[i], got=dxy))
         if node.has_norm and first:
-            nd = ctx.call('norm', lambda: (X(i) - Y(j)).norm(),
-                          lambda: '(x-y) x=%s y=%s' % (lab[i], lab[j]))
+            try:
+                diff = X(i) - Y(j)          # element arithmetic itself is C01's subject
+            except Exception:               # noqa
+                diff = None
+                ctx.skipped += 1
+            nd = None if diff is None else ctx.call(
+                'norm', lambda: diff.norm(), lambda: '(x-y) x=%s y=%s' % (lab[i], lab[j]))
             if nd is not None and not abs(dxy - float(nd)) <= 4 * tol_pow * dsc:
                 ctx.report('dist_not_norm_of_difference',
                            lambda: D(x=lab[i], y=lab[j], dist=dxy, norm_x_minus_y=float(nd)))
@@ -752,6 +759,17 @@ def _wcls(w):
                                        ('default' if w == 'default' else 'array'))
 
 
+def _walk(cfg, ps, dts, top=False):
+    """Collect the exponents of all parts below the top node and the leaf dtypes."""
+    if not top:
+        ps.add(cfg['p'])
+    if cfg['kind'] == 'prod':
+        for c in cfg['parts']:
+            _walk(c, ps, dts)
+    else:
+        dts.add(cfg['dtype'])
+
+
 def site_of(cfg):
     k = cfg['kind']
     if k == 'tensor':
@@ -768,7 +786,13 @@ def site_of(cfg):
                                                     'bdry' if frac else 'nobdry',
                                                     'cv1' if cv1 else 'cv')
     if k == 'prod':
-        return 'ProductSpace[%s,w=%s,%s]' % (cfg['name'], _wcls(cfg['w']), _pcls(cfg['p']))
+        ps, dts = set(), set()
+        _walk(cfg, ps, dts, top=True)
+        tags = 'hilbert-parts' if ps <= {2} else 'parts-without-inner'
+        if len(dts) > 1:
+            tags += ',mixed-precision'
+        return 'ProductSpace[%s,%s,w=%s,%s]' % (cfg['name'], tags, _wcls(cfg['w']),
+                                                _pcls(cfg['p']))
     if k == 'custom':
         return 'custom[%s=,%s]' % (cfg['which'], cfg['base'])
     if k == 'empty':
@@ -1114,7 +1138,7 @@ def meta(tier):
             'discr shapes': '{1,2,3,5}^1, {1,2,3,5}^2, {1,2,3}^3 x all 4 / 16 / 64 nodes_on_bdry '
                             'combinations' if thorough else
                             '{1,2,3,5}^1 x 4, {1,2,3}^2 x 16 nodes_on_bdry combinations, 8 3-d',
-            'discr extents': ['unit box', 'uneven box (sides 2.5, 3, 0.75)',
+            'discr extents': ['unit box', 'uneven box (sides 1.75, 3.25, 0.75)',
                               'every cell side 1', 'cell sides 1/2 x 2 (x 1): cell volume 1'],
             'product spaces': [s[0] for s in _prod_structs(thorough)],
             'product weightings': ['none', 0.5, 2.0, 'per-component array %s' % PWA],
